@@ -472,7 +472,13 @@ UNREGISTERED = {
 	# float division at zoom >= 24 did not finish in 2400 s
 	"c15_h12_geo_x_z24", "c15_h12_geo_x_z31", "c15_h6_count",
 	"c15_h7_index_roundtrip",
+	# ran out of memory / time at the thorough caps
+	"c16_block_index_sparse", "c15_h11_pyramid_include_l0", "c15_h11_pyramid_include_l7", "c15_h11_pyramid_include_l31",
 }
+# harnesses that are fast on the reference tree but whose running time depends on how the code under test is written
+# (a mutant that iterates differently must still get a verdict): generous time-outs
+SLOW_OK = {"c15_h11_pyramid_intersect": 1500, "c15_h11_pyramid_zoom_limits": 1500, "c15_h11_pyramid_contains": 1200, "c15_h11_pyramid_zoom_min": 1200, "c15_h11_pyramid_zoom_max": 1200,
+	"c15_h11_pyramid_transform": 1200, "c15_h11_pyramid_eq": 1200, "c15_h11_pyramid_ctor": 1200, "c09_intersect_pyramid": 1200}
 TIER_OVERRIDE = {
 	"c19_entries_v3_any_2": "thorough", "c15_h8_iter_coords_2x2": "thorough", "c15_h11_pyramid_include_l7": "thorough",
 	"c15_h9_grid_s2_1x2": "thorough", "c15_h9_grid_s256_256x1": "thorough",
@@ -485,3 +491,5 @@ for _pid, _spec in PROPS.items():
 		for h in _spec["harnesses"]:
 			if h.name in TIER_OVERRIDE:
 				h.tier = TIER_OVERRIDE[h.name]
+			if h.name in SLOW_OK:
+				h.timeout = max(h.timeout or 0, SLOW_OK[h.name])
